@@ -129,6 +129,12 @@ class ConfigTargetVisibility(object):
                 self._expr_is_target_constant(cond) and self._expr_is_target_constant(value)
                 for value, cond in item.defaults
             )
+            # Values assigned by `set` / `set default` of other symbols determine the value too: the symbol is only
+            # constant if every such source (the condition includes the source symbol) and value is constant as well.
+            is_constant = is_constant and all(
+                self._expr_is_target_constant(cond) and self._expr_is_target_constant(value)
+                for value, cond, _ in item.rev_values + item.weak_rev_values
+            )
 
         self._constants_cache[item.name] = is_constant
         return is_constant
